@@ -356,13 +356,13 @@ SVC_NAMES = ["login.srv", "drone.srv", "ipr.srv", "combo.srv"]
 SVC_TYPES = ["login", "login-ipr", "dronecheck", "combined"]
 ADDRS = ["1.2.3.4", "10.0.0.1", "255.255.255.255", "0.0.0.0", "0::1", "2001:db8::1", "0::ffff:1.2.3.4",
          "1:0:0:2:0:3:0:0", "0:1:2:3:4:5:6:7", "fe80::1:2:3:4", "junk", "1.2.3", "12345::", "1:2:3:4:5:6:7:8",
-         "0:0:0:0:0:0:102:304", "a:b:c:d:e:f:1:0"]
+         "0:0:0:0:0:0:102:304", "a:b:c:d:e:f:1:0", "A:B:C:D:E:F:1:0", "FE80::Ab:10", "2001:DB8::100:1000"]
 FIELD_LENS = [0, 1, 9, 10, 11, 29, 30, 31, 49, 50, 51, 62, 63, 64, 65, 200, 600]
 
 
 def zero_pattern_addr(mask, rng=None):
     """uncompressed IPv6 text whose group i is zero iff bit i of mask is clear"""
-    pool = ["1", "a", "ff", "1a2b", "ffff", "30", "5"]
+    pool = ["1", "a", "ff", "1a2b", "ffff", "30", "5", "10", "100", "1000", "F", "1A2B", "fFfF"]
     gs = []
     for i in range(8):
         if mask >> i & 1:
@@ -380,7 +380,7 @@ def rand_addr(rng):
     return zero_pattern_addr(rng.randrange(256), rng)
 
 
-def rand_word(rng, n, alphabet="abcXYZ019-_~[]"):
+def rand_word(rng, n, alphabet="abcXYZ019-_~[]%%d"):
     return "".join(rng.choice(alphabet) for _ in range(n))
 
 
@@ -404,7 +404,7 @@ def rand_cfg(rng, mods, timeout=None):
             services.append((n, t))
     rules = []
     if mods == "class":
-        for n in rng.sample(["a", "B", "c", "Dd", "e"], rng.choice([0, 1, 2, 3])):
+        for n in rng.sample(["a", "B", "c", "Dd", "e", "_g"], rng.choice([0, 1, 2, 3])):
             kv = []
             if rng.random() < 0.6:
                 kv.append(("class", rng.choice(["cls-" + n, "x" * 70, "users"])))
@@ -430,7 +430,9 @@ def rand_cfg(rng, mods, timeout=None):
 PASSWORDS = ["+x acct pass", "+! acct pass", "+x! acct pass", "-! acct pass", "-x+! acct pass", "+x", "+x acct",
              "acct pass", "+xzz!  acct  pass word", "+ a b", "-!", "+!x acct pass", "x acct pass", "+x-x acct p"]
 REPLIES = ["OK", "OK acct", "OK acct:123:4", "OK acctx:9", "OK acc", "OK acc:7", "OK ", "OK  two", "NO go away", "NO ", "NO", "AGAIN try later", "AGAIN",
-           "MORE challenge text", "MORE", "OKAY", "ok", "BOGUS text", "OK " + "a" * 70, "NO " + "r" * 1100]
+           "MORE challenge text", "MORE", "OKAY", "ok", "BOGUS text", "OK " + "a" * 70, "NO " + "r" * 1100,
+           # texts are data, never formats: conversion-looking bytes must come out as they went in
+           "AGAIN 100%% sure", "MORE 50%d off %u", "NO 17 %% 5 %x", "OK ac%%ct"]
 
 
 class Client:
@@ -565,6 +567,16 @@ def render_schedule(rng, scripts, chunks=False):
             ops.append(inl("%d %s" % (cid, e[1])))
         elif e[0] == "timeout":
             ops.append("timeout %d" % cid)
+        elif e[0] == "fill":
+            # e[1] other clients come and go (one burst from the server): the serial counter moves on
+            serial += e[1]
+            ops.append("in " + hx(b"".join(b"999 C 10.9.9.9 999 0::1 6667\n999 D\n" for _ in range(e[1]))))
+        elif e[0] == "split":
+            # one line delivered by two reads, nothing in between
+            raw = ("%d %s" % (cid, e[1])).encode("latin-1") + b"\n"
+            cut = len(raw) - e[2]
+            ops.append("in " + hx(raw[:cut]))
+            ops.append("in " + hx(raw[cut:]))
         elif e[0] == "reply":
             _, kind, svc, text, tagmode = e
             s = cur.get(cid, 0)
@@ -796,7 +808,7 @@ def class_scenario(rng, name):
     if rng.random() < 0.4:
         services.append(("drone.srv", "dronecheck"))
     rules = []
-    for n in rng.sample(["a", "B", "c", "Dd", "e", "F0"], rng.choice([1, 2, 2, 3])):
+    for n in rng.sample(["a", "B", "c", "Dd", "e", "F0", "_g", "D_x"], rng.choice([1, 2, 2, 3])):
         kv = []
         if rng.random() < 0.7:
             kv.append(("class", rng.choice(["cls-" + n, "x" * 70, "users"])))
@@ -854,12 +866,14 @@ def class_scenario(rng, name):
     return Case(name, ops, tags={"mods": "class"})
 
 
-def reuse_scenario(rng, name):
+def reuse_scenario(rng, name, gap=None):
     """C04/C05: the server withdraws a client while a query about it is unanswered and gives the
     id to a newcomer (from the same endpoints or others); the late answer must not touch the
     newcomer, whatever routing tags look like"""
     mods = rng.choice(["xquery", "class"])
     ltype = rng.choice(["login", "login", "login-ipr", "combined"])
+    if gap:
+        ltype = "login"       # both instances are asked about as soon as their PASS line is in
     services = [("login.srv", ltype)]
     if rng.random() < 0.3:
         services.append(("drone.srv", "dronecheck"))
@@ -874,18 +888,24 @@ def reuse_scenario(rng, name):
     ev += first[:rng.randint(0, 4)] if ltype == "login" else first
     ev.append(("line", "P :" + rng.choice(["+x alice pw1", "+! alice pw1", "+ alice pw1"])))
     gone = rng.choice(["D", "T", None, "D"])
+    if gap:
+        # the id comes back exactly `gap` announcements later (seeded change C04-6 kept sixteen bits
+        # of the serial: the instances 65536 announcements apart got the same routing tag)
+        gone = gone or "D"
     if gone:
         ev.append(("line", gone))
+    if gap:
+        ev.append(("fill", gap - 1))
     same = rng.random() < 0.7
     ev.append(("C", addr if same else rng.choice(["10.0.0.2", "0::2"]), port if same else "4001"))
     second = list(data)
     rng.shuffle(second)
     k = rng.randint(0, 4)
     ev += (second[:k] if ltype == "login" else second)
-    ev.append(("line", "P :" + rng.choice(["+x bob wrong", "+! bob wrong", "- bob wrong"])))
+    ev.append(("line", "P :" + rng.choice(["+x bob wrong", "+! bob wrong"] + ([] if gap else ["- bob wrong"]))))
     late = ("reply", rng.choice(["X", "X", "X", "x"]), "login.srv",
             rng.choice(["OK alice", "OK alice:17", "NO you are banned", "MORE prove it", "AGAIN wait", "OK"]), "stale")
-    ev.insert(rng.randint(len(ev) - 1, len(ev)), late)
+    ev.insert(len(ev) if gap else rng.randint(len(ev) - 1, len(ev)), late)
     if ltype == "login":
         ev += second[k:]
     if rng.random() < 0.6:
@@ -1055,6 +1075,35 @@ def noisy_scenario(rng, name):
     return Case(name, header(mods, cfg) + ops + ["eof"], tags={"mods": mods})
 
 
+def hidden_only_scenario(rng, name):
+    """C02/C05: clients that demand +! (accepted only with an account stamp) against services whose
+    answers carry an account of boundary length, no account, or none of the final kinds"""
+    mods = rng.choice(["xquery", "class"])
+    services = [("login.srv", rng.choice(["login", "login", "login-ipr", "combined"]))]
+    if rng.random() < 0.4:
+        services.append(("ipr.srv", rng.choice(["login", "login-ipr", "dronecheck"])))
+    cfg = Cfg(timeout=rng.choice([0, 0, 30]), services=services,
+              rules=[("a", [("class", "cls-a"), ("account", "*")]), ("b", [("class", "users")])] if mods == "class" else [])
+    scripts = {}
+    for cid in rng.sample([1, 5, 7, 300, 0, -2], rng.choice([1, 1, 2])):
+        data = [("line", "N host.example"), ("line", "u ident"), ("line", "n nick"), ("line", "U user :real name"),
+                ("line", "P :" + rng.choice(["+! acct pass", "+x! acct pass", "+!x acct pass", "-x+! acct pass", "+! a b"]))]
+        rng.shuffle(data)
+        ev = [("C", rng.choice(CADDRS), "1234")] + data
+        for svc, _t in services:
+            n = rng.choice([1, 10, 63, 64, 65, 66, 70, 200])
+            text = rng.choice(["OK " + "a" * n, "OK " + "b" * n + ":17", "OK " + "c" * n + " trailing words", "OK", "OK ", "OK  two",
+                               "NO go away", "AGAIN later", "MORE prove it", "BOGUS"])
+            ev.insert(rng.randint(len(ev) - 1, len(ev)), ("reply", rng.choice(["X"] * 6 + ["x"]), svc, text, "cur"))
+        if rng.random() < 0.3:
+            ev.append(("line", "P :" + rng.choice(["-! acct pass", "+x acct pass", "answer"])))
+        if cfg.timeout and rng.random() < 0.5:
+            ev.insert(rng.randint(1, len(ev)), ("timeout",))
+        ev.append(("line", "H"))
+        scripts[cid] = ev
+    return Case(name, header(mods, cfg) + render_schedule(rng, scripts) + [inl("-1 ? :stats"), "eof"], tags={"mods": mods})
+
+
 def gen_cases(prop, tier, seed):
     rng = core.rng_for(seed, "proto-" + prop)
     quick = tier == "quick"
@@ -1076,7 +1125,7 @@ def gen_cases(prop, tier, seed):
                                                                           "mods": base.tags["mods"]}))
                     base = Case(base.name, body0[:q] + body0[q + 1:], tags=dict(base.tags))
             elif i % 5 == 4:
-                base = reuse_scenario(rng, "c04/%d/base" % i)
+                base = reuse_scenario(rng, "c04/%d/base" % i, gap=(65536 if i == 4 or i % 1000 == 999 else 256 if i % 50 == 9 else None))
                 # the late answer is the stray line of this pair: base = the history without it
                 body0 = base.body()
                 lat = [q for q, l in enumerate(body0) if l.startswith("in ") and b"@T" in unhx(l.split(" ")[1])
@@ -1159,6 +1208,16 @@ def gen_cases(prop, tier, seed):
                         ev.append(("timeout",))
                     ev.append(("line", "H"))
                     scripts[cid] = ev
+            if i % 7 == 6 and i % 5 != 4 and len(ids) >= 2:
+                # an over-long line of one client that reaches the daemon in two reads and whose tail
+                # reads like a command for another client (seeded change C07-6 dropped the buffered
+                # head of such a line and then parsed the tail as a line of its own)
+                a, other = ids[0], ids[1]
+                tail_ = " %d %s" % (other, rng.choice(["D", "D", "T", "H", "P :+x acct pass"]))
+                text = rng.choice(["P :", "U user :", "N "]) + "x" * rng.choice([1030, 1100, 4200]) + tail_
+                ev = list(scripts[a])
+                ev.insert(rng.randint(1, len(ev)), ("split", text, len(tail_)))
+                scripts[a] = ev
             # C07 quantifies over clients on distinct ids whose own order is preserved
             for k in range(2 if quick else 4):
                 ops = header(mods, cfg) + render_schedule(rng, scripts) + ["eof"]
@@ -1342,6 +1401,8 @@ def gen_cases(prop, tier, seed):
             cases.append(challenge_scenario(rng, "chl/%d" % i))
         elif prop in ("C01", "C02", "C03", "C05") and i % 10 == 1:
             cases.append(relogin_scenario(rng, "relogin/%d" % i))
+        elif prop in ("C02", "C03", "C05") and i % 10 == 5:
+            cases.append(hidden_only_scenario(rng, "bang/%d" % i))
         elif prop in ("C01", "C02", "C04", "C05", "C10") and i % 10 == 6:
             cases.append(reuse_scenario(rng, "reuse/%d" % i))
         elif prop in ("C01", "C02", "C03", "C05", "C10", "C17") and i % 10 == 8:
